@@ -35,7 +35,7 @@ manifest = {
     "setup_cmd": "cd /verif/engine && GOFLAGS=-mod=mod GOPROXY=off GOSUMDB=off GOTOOLCHAIN=local go build -o /verif/bin/symgo .",
     "hooks": {
         "guard": "verif",
-        "enable": "harness files (//go:build verif) and the internal/vp package are injected with go/packages Overlay (symbolic run) and `go test -tags verif -overlay` (native replay); nothing is committed to /repo",
+        "enable": "harness files (//go:build verif) and the internal/vp package are injected with go/packages Overlay (symbolic run) and `go test -tags verif -overlay` (native replay); nothing is committed to /repo. Two recorded source cuts (/verif/cuts.json: a constant becomes a harness variable with the same default) are applied to the current /repo files through the same overlay on every run and listed in each evidence file",
         "baseline_off_cmd": "cd /repo && go test -mod=mod -vet=off -count=1 -timeout 25m ./...",
         "source_commits": [],
         "add_only": True,
